@@ -12,7 +12,7 @@ CLAIMS = {
           'and value. All of this is the TLA+ definition spec/AckDef.tla, judged by TLC (T_Ack) on every real execution; TLC also model-checks the '
           'implementation-shaped error tree and visitors (ErrTree, AckVisit, Ack997, Ack999, driven by the AckGen environment over the Envelope reader model) '
           'against AckDef, and every scenario TLC emits is realised as a real document (997 and 999, multi-set/group/interchange, three delimiter sets).',
-  'note': 'An error is "reported" when a *_error call is made on the handler, and "inside" by the input segment being processed. Errors reported at a segment '
+  'note': 'Corpus E puts element errors at two-digit positions of segments with a two-letter id (reference designators such as HI10-1, HD10). An error is "reported" when a *_error call is made on the handler, and "inside" by the input segment being processed. Errors reported at a segment '
           'that implicitly closes an unclosed loop decide nothing; unclosed loops without their own errors may carry any code. AK5/AK9 note codes and SEG1 are '
           'not checked. Group and set naming is only claimed when every header finds its enclosing loop open. An echoed value may differ from the offending '
           'value only at positions holding a separator of the acknowledgement itself (C06 forbids carrying it). Known finding: AK903 = 0 for a group that lost its GE '
@@ -38,7 +38,7 @@ CLAIMS = {
           'malformed ISA) and EngineError "Map not found" for groups without a transaction map; nothing else escapes and every call terminates (CPU-time guard). '
           'The input class and the allowed outcome set per class are the TLA+ definition spec/ValidateDef.tla; spec/Mutate.tla generates all single and seeded double '
           'structural mutations (16 kinds) of 5 fixture skeletons; TLC (T_Validate) recomputes the class of every input and judges every recorded outcome.',
-  'note': 'Checked on all single and sampled double mutations of 5 fixtures (837P 4010, 834 5010, 835, 270, 278+837+835), on seeded arbitrary strings and ISA header edits, '
+  'note': 'Mutation kind cutsub removes or empties the last component of a composite; for in-segment mutations of the long skeletons both rendering sinks (HTML, XML) are run. Checked on all single and sampled double mutations of 5 fixtures (837P 4010, 834 5010, 835, 270, 278+837+835), on seeded arbitrary strings and ISA header edits, '
           'and on one minimal interchange per maps.xml entry; not a proof for all texts. Known finding: maps.xml lists 841.4010.XXXC.xml, which cannot be loaded '
           '(undefined data elements, see C16) and raises EngineError instead of a verdict.',
   'technique': 'TLA+ generator (Mutate: BFS + seeded simulation) -> concretised real documents -> real entry points under a time guard -> TLC trace validation '
@@ -49,7 +49,7 @@ CLAIMS = {
           'and every history of <=2/3 set() calls (SegOps) with the read-back/others-unchanged/exact-growth laws as action properties; every emitted behaviour is replayed '
           'into X12Path/Segment and compared field by field; node paths of the shipped maps and seeded random set/get histories are recorded from the real classes and '
           'trace-validated by TLC against the Parse/Print/Set/Get definitions (T_PathSeg).',
-  'note': 'Bounded: loop-id alphabet of 9 representative ids, histories of <=3 calls exhaustively plus random histories of <=10 calls; trusted: TLC, the projection functions in lib/c17.py.',
+  'note': 'Every element is read at element level before and after every write (element_read), so state left behind by reads must not outlive a write. Bounded: loop-id alphabet of 9 representative ids, histories of <=3 calls exhaustively plus random histories of <=10 calls; trusted: TLC, the projection functions in lib/c17.py.',
   'technique': 'TLA+ model checking (TLC) + replay of TLC behaviours into the code + TLC trace validation of recorded executions',
  },
  'C04': {
@@ -69,7 +69,7 @@ CLAIMS = {
           'between the five conditions; every case is replayed into a real segment_if and Segment (is_syntax_valid verdict, element error code 10 for E else 2 at a '
           'mentioned position, none when satisfied). For every syntax note of every segment of every loadable shipped map x every presence pattern x every segment '
           'length, is_syntax_valid and segment_if.is_valid(errh_list) are run and the log is trace-validated by TLC (T_Syntax); complete table in the thorough tier.',
-  'note': 'Errors of other validations are separated by differencing against the same is_valid call with the notes switched off; error position only required to be '
+  'note': 'The notes a segment is judged by are read from the map XML independently and compared with what the loaded node enforces (note_not_loaded); for segments with several errors the note errors are also reported through the error-tree handler and judged by the same clauses. Errors of other validations are separated by differencing against the same is_valid call with the notes switched off; error position only required to be '
           'one of the note positions; quick tier: 5-element generator space, distinct (note, element-count) signatures over all maps plus per-occurrence is_valid on 5 maps. '
           'Not covered: the unloadable 841 map, cases where is_valid raises regardless of notes. Trusted: TLC, projections in lib/c14.py.',
   'technique': 'TLA+ model checking (TLC) Impl=Def + replay of TLC cases into the code + TLC trace validation of the complete recorded table',
@@ -148,7 +148,7 @@ CLAIMS = {
           'plans of C03 (every kind), and buffer-sized 837 documents with the terminators shifted over 24/48 alignments - are rendered under 8/14 encodings (4 delimiter triples incl. newline-terminated '
           'and binary separators x line-break conventions) and validated by the real x12n_document; per document TLC (T_Delims) requires verdict, error set (level, code, segment position, element and '
           'component position, offending value) and acknowledgement body to equal those of the reference encoding.',
-  'note': 'Besides map-level single faults, RawPiece documents carry pieces the tokenizer must treat alike under every encoding (separators only, blanks only, an id followed by separators only, leading blank, trailing separators). Delimiters never occur in the data (excluded by the property); offending values and acknowledgement elements are compared after mapping delimiter characters to canonical ones; '
+  'note': 'Encodings include control-character separators, '^' as component separator (5010 documents), '.' and '-' (skipped for documents whose data holds them). Besides map-level single faults, RawPiece documents carry pieces the tokenizer must treat alike under every encoding (separators only, blanks only, an id followed by separators only, leading blank, trailing separators). Delimiters never occur in the data (excluded by the property); offending values and acknowledgement elements are compared after mapping delimiter characters to canonical ones; '
           'the binary triple uses ">" as component separator (a control character in ISA16 is itself rejected). Trusted: TLC, concretiser/renderer, recorders.',
   'technique': 'TLA+ model checking (TLC) of Oracle o Encode = id + metamorphic replay of TLC-generated documents under all encodings + TLC trace validation of the observations',
  },
@@ -182,7 +182,7 @@ CLAIMS = {
           'element and composite node of every loadable shipped map x the value catalogue of its definition x charset B/E x three exclusion settings (and DTP03/1251 elements through segment_if.is_valid '
           'with every allowed qualifier), is_valid is called with errh_list; the log (definition read by an independent XML reading, value code points, result, codes) is de-duplicated and trace-validated '
           'by TLC (T_ElemValid) - all 1856+115 signatures in the thorough tier, a stratified 15% in quick.',
-  'note': 'Several constraints broken at once: only result false, non-empty report within the implied codes (no precedence claimed); for composites 2|1 and 5|10 are admitted; regex = Python re; external '
+  'note': 'Composites are also judged component by component (component_missed: unless the composite itself is at fault, every component with a broken constraint has one of its codes reported at that component). Several constraints broken at once: only result false, non-empty report within the implied codes (no precedence claimed); for composites 2|1 and 5|10 are admitted; regex = Python re; external '
           'membership = own reading of codes.xml; not covered: 841.4010.XXXC (does not load), nodes with undefined data elements. Trusted: TLC, lib/c15_*.py projections.',
   'technique': 'TLA+ model checking (TLC) of Impl-admissible-for-Def + replay of TLC cases on real map nodes + TLC trace validation of the complete recorded table',
  },
@@ -193,7 +193,7 @@ CLAIMS = {
           'repeating parents) of 6 maps (thorough: all) are iterated with the real X12ContextReader for no loop id and every segment-anchored loop id they contain, envelope loops included; T_Context (TLC) '
           'validates per run: no segment lost / duplicated / reordered, content, position in set and source line, grouping, tree root, tree shape. '
           'Map dispatch (spec/Driver.tla, as in C02) is replayed through iter_segments: map of every yielded node, check_837_lx flag, Map-not-found position (T_Driver).',
-  'note': 'Placement oracle = the node pyx12 matched in an independent validation run (bound to the walker transcription by C02); map objects are memoised inside the harness process. One recorded '
+  'note': 'The position of a segment in its set is counted from the document itself (not taken from the reader the context reader uses); one document per child loop through which a wrapper loop is entered; a conformant document whose segments cannot be located is a violation (conformant_segment_not_located). Placement oracle = the node pyx12 matched in an independent validation run (bound to the walker transcription by C02); map objects are memoised inside the harness process. One recorded '
           'finding (ISA_LOOP trees lack the GS_LOOP level). Trusted: TLC, the tree flattener in lib/c09.py.',
   'technique': 'TLA+ definition of the partition + replay of TLC-generated documents through X12ContextReader for every loop id + TLC trace validation',
  },
@@ -214,7 +214,7 @@ CLAIMS = {
           'with values carrying < > & " \' and blanks, and - with fixtures, seeded fixture mutations, concatenated interchanges and markup-character delimiters - run through the real x12n_document; '
           'the recorded error-handler calls, source segments and the HTML parsed back with html.parser are trace-validated by TLC (T_Html): every segment once, in order, with line number and values, '
           'every claimed segment-/element-level error adjacent to its segment, no unescaped input, complete document, StripMarkup = source.',
-  'note': 'Claimed errors = seg_error/ele_error calls made while a segment is validated and stored in the tree; isa/gs/st-level errors and errors the handler dropped are recorded, not claimed. '
+  'note': 'Errors reported while a body segment of a transaction set the handler has open is processed are claimed wherever the handler keeps them; reader-level errors are also put on the first and the last body segment of a set. Claimed errors = seg_error/ele_error calls made while a segment is validated and stored in the tree; isa/gs/st-level errors and errors the handler dropped are recorded, not claimed. '
           'Six recorded findings (cursor stuck after the first interchange / in an unclosed loop / on a closed set / on envelope lines, stale element node for too-many-elements). Trusted: TLC, lib/c19_run.py.',
   'technique': 'TLA+ model checking (TLC) of the error-tree cursor and report model + realisation of emitted behaviours as documents + TLC trace validation of recorded runs (drift reported separately)',
  },
